@@ -38,6 +38,9 @@ class Acc:
             self.v.append(F.violation(clause, msg, witness, feats, site))
 
 
+D8_CROPS = ("Cassava", "PotatoLocalGDD", "localpaddy", "MaizeChampionGDD")
+
+
 def spec_features(spec):
     """Mechanism-level features of a configuration, used by known-finding predicates."""
     if spec is None:
@@ -51,7 +54,10 @@ def spec_features(spec):
     if soil["type"] == "custom":
         pen = any(L.get("pen", 100) < 100 for L in soil["layers"])
     return {
-        "crop_has_no_YldWC": not bool(yld),
+        # D8 is the finding "these four built-in crops ship without a dry-matter fraction"; any
+        # other crop that turns up without one is a different defect and must not be absorbed
+        "crop_has_no_YldWC": (not bool(yld)) and c["name"] in D8_CROPS,
+        "crop_without_YldWC_not_in_D8": (not bool(yld)) and c["name"] not in D8_CROPS,
         "calendar_type": int(c.get("kw", {}).get("CalendarType", cp.get("CalendarType", 0))),
         "restrictive_layer": pen,
         "off_season": bool(spec.get("off_season")),
